@@ -65,7 +65,7 @@ CHECKS = {
         design="DESIGN.md §4 C07",
     ),
     "C13": dict(
-        rules="R13.1-R13.9",
+        rules="R13.1-R13.10",
         what="blockers never reach the ignore logic; suppressed-by-ignore implies recorded-as-used, only for enabled codes, and nothing else records; decision order of is_error_code_enabled (explicit disable, explicit enable, parent disabled); who may append to the error map; exit status truth table over (message, non-note, blockers, install override) and its data-flow to sys.exit; generators of diagnostics that bypass is_error_code_enabled are guarded by their own code not being disabled (truth table over the guard's atoms)",
         quant="programs x ignore placements x code selections",
         technique="CFG must-pass / reachability, guard chains, who-may-call, abstract evaluation of the exit-status assignments",
